@@ -19,7 +19,7 @@ LIT = {
     "int": "1", "str": "'s'", "bytes": "b'b'", "float": "1.5", "bool": "True", "None": "None", "list[int]": "[1]",
     "dict[str, int]": "{'k': 1}", "int | None": "None", "tuple[int, str]": "(1, 's')",
 }
-EXPORT_KINDS = ["func", "func", "cls", "cls", "const", "alias", "box", "proto", "nt", "td", "dc", "enum", "ovl", "deco", "reexport"]
+EXPORT_KINDS = ["func", "func", "cls", "cls", "const", "alias", "box", "proto", "nt", "td", "dc", "enum", "ovl", "deco", "reexport", "cfn"]
 IMPORT_STYLES = ["import", "import", "from", "star", "func", "tc", "frompkg"]
 
 
@@ -80,7 +80,9 @@ def make_consistent(st, u) -> None:
         if not src or src["kind"] == "reexport":
             return
         e, k = src, src["kind"]
-    if k == "func":
+    if k == "cfn":
+        u["a"], u["t"], u["form"] = e["p"], e["r"], u["form"] % 2
+    elif k == "func":
         u["a"], u["t"], u["form"] = e["p"], e["r"], (u["form"] if not e.get("rcls") else 2) if e.get("rcls") else u["form"] % 2
     elif k == "ovl":
         u["a"], u["t"], u["form"] = "int", e["r"], u["form"] % 2
@@ -134,7 +136,7 @@ def fresh(st) -> int:
 
 def add_export(st, rnd, mod, kind=None) -> None:
     k = kind or rnd.choice(EXPORT_KINDS)
-    name = {"func": "f", "cls": "K", "const": "C", "alias": "A", "box": "Box", "proto": "P", "nt": "NT", "td": "TD", "dc": "DC", "enum": "E", "ovl": "ov", "deco": "deco", "reexport": "rx"}[k] + str(fresh(st))
+    name = {"func": "f", "cls": "K", "const": "C", "alias": "A", "box": "Box", "proto": "P", "nt": "NT", "td": "TD", "dc": "DC", "enum": "E", "ovl": "ov", "deco": "deco", "reexport": "rx", "cfn": "cf"}[k] + str(fresh(st))
     e = new_export(rnd, k)
     if k == "reexport":
         # re-export some name of a module this one imports (if any)
@@ -199,6 +201,9 @@ def render_export(st, mod, name, e) -> list[str]:
             out += ["def %s(x: %s) -> %s:" % (name, e["p"], r), "    return %s()" % r]
         else:
             out += ["def %s(x: %s) -> %s:" % (name, e["p"], e["r"]), "    return %s" % lit(e["r"], e["ok"])]
+    elif k == "cfn":
+        p2 = e["p"] if e["ok"] else ("bytes" if e["p"] != "bytes" else "str")
+        out += ["if bool():", "    def %s(x: %s) -> %s:" % (name, e["p"], e["r"]), "        return %s" % lit(e["r"]), "else:", "    def %s(x: %s) -> %s:" % (name, p2, e["r"]), "        return %s" % lit(e["r"])]
     elif k == "cls":
         base = ""
         if e.get("base"):
@@ -253,7 +258,9 @@ def render_use(st, mod, u) -> list[str]:
     out = []
     if u.get("sig") is not None and kind in ("cls", "nt", "dc", "td", "proto", "enum"):
         return [l % {"i": i, "r": r} + (tail if "%(r)s" in l else "") for l in SIG_WRAPS[u["sig"] % len(SIG_WRAPS)]]
-    if kind in ("func", "ovl"):
+    if kind == "cfn":
+        out += ["u%d: %s = %s(%s)%s" % (i, u["t"], r, lit(u["a"]), tail)]
+    elif kind in ("func", "ovl"):
         if u["form"] == 0:
             out += ["u%d: %s = %s(%s)%s" % (i, u["t"], r, lit(u["a"]), tail)]
         elif u["form"] == 1:
@@ -303,6 +310,8 @@ def render_module(st, mod, stub=False) -> str:
         # is accepted as fresh by hash and the .py's cached diagnostics are replayed under the old path)
         out.insert(0, "# stub for %s" % mod)
     func_level, tc = [], []
+    for miss in m.get("missing", []):
+        out.append("import %s" % miss)  # a module that does not exist anywhere (a persistent import-not-found error)
     for dep, style in m["imports"].items():
         ign = "  # type: ignore" if dep in m.get("import_ignore", []) else ""
         if style == "frompkg" and "." in dep:
@@ -512,6 +521,10 @@ def apply_edit(st, op) -> bool:
         u.pop("sig", None)
         u["other"] = op["other"]
         m["uses"].append(u)
+    elif kind == "add_missing_import":
+        m.setdefault("missing", [])
+        if op.get("name", "zz_missing") not in m["missing"]:
+            m["missing"].append(op.get("name", "zz_missing"))
     elif kind == "toggle_all":
         m["all"] = sorted(m["exports"]) if m.get("all") is None else None
     elif kind == "toggle_all_member" and op.get("name") in m["exports"]:
